@@ -5,6 +5,7 @@ callable and of its undecorated twin, canonical outcomes."""
 import sys, os, json, random, inspect, types, importlib.util, tempfile, shutil, asyncio, collections, collections.abc, typing, io, contextlib
 import re
 import _checker_common as K
+import _calltrace_common as T
 
 ANN_POOL = ['int', 'int', 'str', 'float', 'bool', 'List[int]', 'list[int]', 'Dict[str, int]', 'Optional[int]', 'Union[int, str]',
             'Tuple[int, str]', 'Tuple[int, ...]', 'Set[int]', 'P', 'Any', 'Iterable[int]', 'Iterable[int]', 'Optional[Iterable[int]]', 'Sequence[str]', 'int | None',
@@ -533,11 +534,15 @@ def make_caller(names):
     return m
 
 
+CLASH = {'P': K.Pdup, 'C1': K.C2}      # what the 'clash' caller module binds differently from the generated module (P is another class of the same name)
+
+
 class Callers:
-    """'full': binds every name of the context from the start; 'bare': binds none; 'late': binds them when `bind_late` is applied"""
+    """'clash': binds every name, P and C1 to other classes than the module of the function does; 'full': binds every name of the context from the start; 'bare': binds none; 'late': binds them when `bind_late` is applied"""
 
     def __init__(self):
-        self.mods = {'full': make_caller(True), 'bare': make_caller(False), 'late': make_caller(False)}
+        self.mods = {'full': make_caller(True), 'bare': make_caller(False), 'late': make_caller(False), 'clash': make_caller(True)}
+        self.mods['clash'].__dict__.update(CLASH)       # the caller binds a name of the function's module to ANOTHER class
         self.late_bound = False
 
     def bind_late(self):
@@ -545,7 +550,7 @@ class Callers:
         self.late_bound = True
 
     def has_names(self, mode):
-        return mode == 'full' or (mode == 'late' and self.late_bound)       # ('loop': a coroutine stepped by asyncio - no names)
+        return mode in ('full', 'clash') or (mode == 'late' and self.late_bound)       # ('loop': a coroutine stepped by asyncio - no names)
 
 
 def run_one(target, pos_objs, kw_objs, hook, script, coroutine, caller=None, drive='await'):
@@ -625,6 +630,8 @@ class Programs:
         c = getattr(mod, acc[1])
         if acc[0] == 'cls':
             return getattr(c, acc[2]), None
+        if acc[0] == 'clskw':             # K.m(self=obj, …): the method through the class, its receiver passed by KEYWORD (execute adds it)
+            return getattr(c, acc[2]), c()
         inst = c()
         if acc[0] in ('propget', 'propset', 'propdel'):
             return PropAccess(acc[0], inst, acc[2]), inst
@@ -678,18 +685,20 @@ def implicit_of(kind, acc):
                                                'require_kwargs_method')) else 0
 
 
-def execute(P, F, acc, pos, kw, body, ctxmode='full'):
-    """run the decorated callable and its undecorated twin on the same (freshly built) objects"""
+def execute(P, F, acc, pos, kw, body, ctxmode='full', trace=None):
+    """run the decorated callable and its undecorated twin on the same (freshly built) objects; `trace`: record the lines executed
+    inside the call layer during the decorated call (None: the sampling of _calltrace_common decides)"""
     coroutine = F['flavour'] == 'coroutine'
+    traced = T.want(force=bool(trace)) if trace is not False else False
 
-    def one(mod, hook):
+    def one(mod, hook, traced=False):
         target, inst = P.target(mod, acc)
         K.INST_FACTORY.clear()
         if inst is not None:
             K.INST_FACTORY[K.Recv] = lambda: inst          # the receiver itself, passed again as an argument (`node.link(node)`)
         try:
             pos_objs = [K.build_val(t) for t in pos]
-            kw_objs = {K.name_of(k): K.build_val(t) for k, t in kw}
+            kw_objs = {K.name_of(k): (inst if acc[0] == 'clskw' and K.name_of(k) == 'self' else K.build_val(t)) for k, t in kw}
         finally:
             K.INST_FACTORY.clear()
         if body[0] == 'raises':
@@ -699,8 +708,22 @@ def execute(P, F, acc, pos, kw, body, ctxmode='full'):
         else:
             script = ('ret', K.build_val(body[1]))
         hook.produced = None
-        out, res, journal = run_one(target, pos_objs, kw_objs, hook, script, coroutine, P.callers.mods['full' if ctxmode == 'loop' else ctxmode],
-                                    drive='run' if ctxmode == 'loop' else 'await')
+        world = None
+        if traced:
+            # what the hand model does not describe: does the receiver carry the TypeVar method (@pedantic_class / GenericMixin), is Self bound there
+            from pedantic.constants import TYPE_VAR_METHOD_NAME, TYPE_VAR_SELF
+            tvm = inst is not None and hasattr(inst, TYPE_VAR_METHOD_NAME)
+            try:
+                bound = bool(tvm) and TYPE_VAR_SELF in getattr(inst, TYPE_VAR_METHOD_NAME)()
+            except Exception:
+                bound = False
+            world = {'tvm': bool(tvm), 'selfBound': bound}
+            T.start()
+        try:
+            out, res, journal = run_one(target, pos_objs, kw_objs, hook, script, coroutine, P.callers.mods['full' if ctxmode == 'loop' else ctxmode],
+                                        drive='run' if ctxmode == 'loop' else 'await')
+        finally:
+            path = T.stop() if traced else None
         caller_objs = pos_objs + list(kw_objs.values())
         remaining = {}      # how many items every one-shot iterator argument still holds after the call (the scripted body never iterates)
         for i, o in enumerate(caller_objs):
@@ -722,11 +745,15 @@ def execute(P, F, acc, pos, kw, body, ctxmode='full'):
             for name, v in journal[0][1].items():
                 ids = [i for i, o in enumerate(caller_objs) if o is v and meaningful(o)]
                 binding[name] = ids[0] if ids else None
-        return {'out': out, 'ran': len(journal), 'got': got, 'meaningful': mean, 'binding': binding, 'remaining': remaining}
-    d = one(P.mod, P.hook)
+        return {'out': out, 'ran': len(journal), 'got': got, 'meaningful': mean, 'binding': binding, 'remaining': remaining, 'trace': path, 'world': world}
+    d = one(P.mod, P.hook, traced)
     t = one(P.twin, P.twin_hook)
-    return {'out': d['out'], 'ran': d['ran'], 'got': d['got'], 'meaningful': d['meaningful'], 'binding': d['binding'], 'remaining': d['remaining'],
-            'twin': {'out': t['out'], 'ran': t['ran'], 'binding': t['binding'], 'remaining': t['remaining']}}
+    r = {'out': d['out'], 'ran': d['ran'], 'got': d['got'], 'meaningful': d['meaningful'], 'binding': d['binding'], 'remaining': d['remaining'],
+         'twin': {'out': t['out'], 'ran': t['ran'], 'binding': t['binding'], 'remaining': t['remaining']}}
+    if d['trace'] is not None:
+        r['trace'] = d['trace']          # statement ids of the translated call layer, in the order CPython executed them
+        r['world'] = d['world']
+    return r
 
 
 def iterator_items(case):
@@ -772,7 +799,8 @@ def build_cases(rng, n_callables, calls_per=4, profile='mixed', style=None, tag=
                     mbody = ['raises', 0] if body[0] == 'raises' else (['ret', ["inst", K.IDX[K.U]]] if body[0] == 'retzoo' else body)
                     cases.append({'m': 'calllayer',
                                   'c': {'env': env_for(P, ctxmode, F['src']), 'fn': desc, 'truth': truth,
-                                        'args': ([["inst", K.IDX[K.U]]] if implicit else []) + pos, 'kw': kw, 'body': mbody},
+                                        'args': ([["inst", K.IDX[K.U]]] if implicit else []) + pos, 'kw': kw, 'body': mbody,
+                                        **({'world': impl['world']} if impl.get('world') else {})},
                                   'x': {'src': F['src'], 'twin': F['twin'], 'access': list(acc), 'kind': F['kind'], 'flavour': F['flavour'],
                                         'pos': pos, 'kwv': kw, 'body': body, 'implicit': implicit, 'needle': F['needle'], 'ctxmode': ctxmode,
                                         '_impl': impl}})
@@ -810,6 +838,8 @@ def env_for(P, ctxmode, src=''):
     # at any indentation (methods, classes inside functions), with or without a trailing comment on the decorator lines
     through = re.search(r'@passthru[ \t]*(#[^\n]*)?\n[ \t]*@pedantic', src) is not None
     caller = dict(K.CTX) if (P.callers.has_names(ctxmode) and not through) else {}      # 'loop': the event loop's frame binds none of them
+    if ctxmode == 'clash' and caller:
+        caller.update(CLASH)
     merged = {**caller, **MODULE_BOUND}
     merged.pop('Counter', None)
     return dict(env, ctx=[[K.nid(k), K.IDX[v]] for k, v in merged.items()])
@@ -847,11 +877,11 @@ def run_impl_calls(cases):
         try:
             for h in x.get('history', []):       # a scenario case: replay the calls that preceded it on a fresh module
                 apply_pre(P, h.get('pre'))
-                execute(P, {'flavour': h['flavour'], 'kind': h['kind']}, tuple(h['access']), h['pos'], h['kwv'], h['body'], h.get('ctxmode', 'full'))
+                execute(P, {'flavour': h['flavour'], 'kind': h['kind']}, tuple(h['access']), h['pos'], h['kwv'], h['body'], h.get('ctxmode', 'full'), trace=False)
             apply_pre(P, x.get('pre'))
             if 'scalars' in primes:
                 prime_scalars(P, F, x)
-            out.append(execute(P, F, tuple(x['access']), x['pos'], x['kwv'], x['body'], x.get('ctxmode', 'full')))
+            out.append(execute(P, F, tuple(x['access']), x['pos'], x['kwv'], x['body'], x.get('ctxmode', 'full'), trace=True))
         finally:
             P.close()
     return out
@@ -1048,10 +1078,147 @@ def scenario_cases(rng, n, style=None, tag='s'):
                 step = {'access': list(acc), 'kind': kind, 'flavour': flav, 'pos': pos, 'kwv': kw, 'body': body, 'pre': pre, 'ctxmode': ctxmode}
                 cases.append({'m': 'calllayer',
                               'c': {'env': env_for(P, ctxmode), 'fn': desc, 'truth': truth,
-                                    'args': ([["inst", K.IDX[K.U]]] if implicit else []) + pos, 'kw': kw, 'body': mbody},
+                                    'args': ([["inst", K.IDX[K.U]]] if implicit else []) + pos, 'kw': kw, 'body': mbody,
+                                    **({'world': impl['world']} if impl.get('world') else {})},
                               'x': dict(step, src=S['src'], twin=S['twin'], implicit=implicit, needle=None, history=list(history),
                                         scenario=S['skind'], _impl=impl)})
                 history.append(step)
+        finally:
+            P.close()
+    return cases
+
+
+def context_clash_cases(rng, n, tag='cc'):
+    """string annotations / forward references naming P / C1, called from a module that binds these names to OTHER classes: the context of a
+    call is the caller's names overridden by those of the module that defines the function (FunctionCall.__init__ merges them in that order),
+    so the annotation means the class of the defining module - its instances are accepted, the caller's namesake is rejected"""
+    cases = []
+    anns = ["'P'", "List['P']", "Optional['P']", "Dict[str, 'P']", "'C1'", "List['C1']"]
+    for idx in range(n):
+        ann = anns[idx % len(anns)]
+        deco = '@pedantic'
+        flav = 'coroutine' if idx % 5 == 4 else 'sync'
+        d = 'async def' if flav == 'coroutine' else 'def'
+        ret = ann if idx % 3 == 2 else 'None'
+        body_src = f'{d} cc{idx}(p0: {ann}) -> {ret}:\n    return _BODY({idx}, locals())\n'
+        P = OneProgram(deco + '\n' + body_src, body_src, f'{tag}{idx}_{rng.randrange(10**9)}')
+        try:
+            F = {'flavour': flav, 'kind': 'plain'}
+            acc = ('mod', f'cc{idx}')
+            raw, mode = P.raw_of(F, acc)
+            desc = describe(raw, mode)
+            mine = K.P if 'P' in ann else K.C1
+            other = K.Pdup if 'P' in ann else K.C2
+            for cls in (mine, other):
+                v = ["inst", K.IDX[cls]]
+                a = desc['params'][0]['ann']
+                wrapped = v if a[0] in ('str', 'union') else (["coll", K.IDX[list], [v]] if a[0] == 'seq' else
+                                                            ["mapping", K.IDX[dict], [[K.lit('k'), v]]] if a[0] == 'map' else v)
+                kw = [[K.nid('p0'), K.canon_term(wrapped)]]
+                body = ['ret', K.canon_term(wrapped)] if ret != 'None' else ['ret', K.lit(None)]
+                impl = execute(P, F, acc, [], kw, body, 'clash')
+                truth = {'realStatic': False, 'realSetter': False, 'realPedantic': True, 'implicit': 0}
+                cases.append({'m': 'calllayer',
+                              'c': {'env': env_for(P, 'clash'), 'fn': desc, 'truth': truth, 'args': [], 'kw': kw, 'body': body,
+                                    **({'world': impl['world']} if impl.get('world') else {})},
+                              'x': {'src': deco + '\n' + body_src, 'twin': body_src, 'access': list(acc), 'kind': 'plain', 'flavour': flav, 'pos': [], 'kwv': kw,
+                                    'body': body, 'implicit': 0, 'needle': None, 'ctxmode': 'clash', 'scenario': 'clash', '_impl': impl}})
+        finally:
+            P.close()
+    return cases
+
+
+UNPRINTABLE_PROGRAMS = [   # (signature, return annotation): the parameter p0 and / or the result take values that cannot be formatted
+    ('p0: Any', 'Any'), ('p0: int', 'int'), ('p0: Unp', 'Unp'), ('p0: List[Any]', 'None'), ('p0: Optional[Unp] = None', 'Optional[Unp]'),
+    ('*args: Any', 'Any'), ('**kwargs: int', 'int'), ('p0: int, *args: int', 'Any')]
+
+
+def unprintable_cases(rng, n, tag='up'):
+    """values whose str() / repr() / format() raise (`_checker_common.Unp`), conforming and non-conforming, as keyword argument, positional
+    argument, *args element, **kwargs value, nested in a list, and as result: a conforming one passes like any other value, a non-conforming
+    one ends in a PedanticException - building the message must not raise (the case tells the model which classes cannot be formatted)"""
+    cases = []
+    unp = ["inst", K.IDX[K.Unp]]
+    for idx in range(n):
+        sig, ret = UNPRINTABLE_PROGRAMS[idx % len(UNPRINTABLE_PROGRAMS)]
+        flav = 'coroutine' if idx % 7 == 6 else 'sync'
+        d = 'async def' if flav == 'coroutine' else 'def'
+        head = 'from _checker_common import Unp\n'
+        body_src = f'{d} up{idx}({sig}) -> {ret}:\n    return _BODY({idx}, locals())\n'
+        P = OneProgram(head + '@pedantic\n' + body_src, head + body_src, f'{tag}{idx}_{rng.randrange(10**9)}')
+        try:
+            F = {'flavour': flav, 'kind': 'plain'}
+            acc = ('mod', f'up{idx}')
+            raw, mode = P.raw_of(F, acc)
+            desc = describe(raw, mode)
+            good = K.lit(1)
+            calls = []          # (pos, kw, body)
+            name = K.nid('p0')
+            if sig.startswith('p0'):
+                for v in (unp, ["coll", K.IDX[list], [unp]], good):
+                    calls.append(([], [[name, v]], ['ret', unp]))
+                    calls.append(([], [[name, v]], ['ret', good]))
+                calls.append(([unp], [], ['ret', good]))                      # positional: the message of the rejection lists the arguments
+                if '*args' in sig:
+                    calls.append(([good, unp], [], ['ret', good]))
+            elif sig.startswith('*args'):
+                calls += [([unp], [], ['ret', unp]), ([good, unp], [], ['ret', good]), ([], [], ['ret', unp])]
+            else:
+                calls += [([], [[K.nid('x0'), unp]], ['ret', good]), ([], [[K.nid('x0'), good]], ['ret', unp]), ([], [], ['ret', unp])]
+            for pos, kw, body in calls:
+                pos = [K.canon_term(v) for v in pos]
+                kw = [[k, K.canon_term(v)] for k, v in kw]
+                body = [body[0], K.canon_term(body[1])]
+                impl = execute(P, F, acc, pos, kw, body, 'full')
+                truth = {'realStatic': False, 'realSetter': False, 'realPedantic': True, 'implicit': 0}
+                cases.append({'m': 'calllayer',
+                              'c': {'env': env_for(P, 'full'), 'fn': desc, 'truth': truth, 'args': pos, 'kw': kw, 'body': body, 'unprintable': [K.IDX[K.Unp]],
+                                    **({'world': impl['world']} if impl.get('world') else {})},
+                              'x': {'src': head + '@pedantic\n' + body_src, 'twin': head + body_src, 'access': list(acc), 'kind': 'plain', 'flavour': flav,
+                                    'pos': pos, 'kwv': kw, 'body': body, 'implicit': 0, 'needle': None, 'ctxmode': 'full', 'scenario': 'unprintable', '_impl': impl}})
+        finally:
+            P.close()
+    return cases
+
+
+def receiver_cases(rng, n, tag='rv'):
+    """the receiver of a method: passed by KEYWORD (`K.m(self=obj, p0=1)`: a call Python accepts), and called something else than `self`
+    (`def m(this, p0: int)`, `obj.m(p0=1)`: the implicit receiver must not count as a positional argument)"""
+    cases = []
+    for idx in range(n):
+        variant = ['kw_pedantic', 'kw_class', 'kw_rk', 'this_pedantic', 'this_class', 'kw_dstar'][idx % 6]
+        flav = 'coroutine' if idx % 5 == 4 else 'sync'
+        d = 'async def' if flav == 'coroutine' else 'def'
+        first = 'this' if variant.startswith('this') else 'self'
+        extra = ', **kwargs: int' if variant == 'kw_dstar' else ''
+        deco = {'kw_pedantic': '    @pedantic\n', 'kw_dstar': '    @pedantic\n', 'this_pedantic': '    @pedantic\n', 'kw_rk': '    @require_kwargs\n'}.get(variant, '')
+        cdeco = '@pedantic_class\n' if variant.endswith('_class') else ''
+        m = f'    {d} m{idx}({first}, p0: int{extra}) -> int:\n        return _BODY({idx}, locals())\n'
+        src = cdeco + f'class R{idx}:\n' + deco + m
+        twin = f'class R{idx}:\n' + m
+        kind = {'kw_pedantic': 'inst_direct', 'kw_dstar': 'inst_direct', 'this_pedantic': 'inst_direct', 'kw_rk': 'require_kwargs_method'}.get(variant, 'inst_class')
+        P = OneProgram(src, twin, f'{tag}{idx}_{rng.randrange(10**9)}')
+        try:
+            F = {'flavour': flav, 'kind': kind}
+            by_kw = variant.startswith('kw')
+            acc = ('clskw' if by_kw else 'inst', f'R{idx}', f'm{idx}')
+            raw, mode = P.raw_of(F, ('inst',) + acc[1:])
+            desc = describe(raw, mode)
+            for v in (K.lit(1), K.lit('x')):
+                kw = [[K.nid('p0'), K.canon_term(v)]]
+                if variant == 'kw_dstar':
+                    kw.append([K.nid('x0'), K.lit(2)])
+                if by_kw:
+                    kw = [[K.nid('self'), ["inst", K.IDX[K.U]]]] + kw
+                body = ['ret', K.lit(3)]
+                impl = execute(P, F, acc, [], kw, body, 'full')
+                implicit = 0 if by_kw else 1
+                truth = {'realStatic': False, 'realSetter': False, 'realPedantic': variant in ('kw_pedantic', 'kw_dstar', 'this_pedantic', 'kw_rk'), 'implicit': implicit}
+                cases.append({'m': 'calllayer',
+                              'c': {'env': env_for(P, 'full'), 'fn': desc, 'truth': truth, 'args': ([["inst", K.IDX[K.U]]] if implicit else []), 'kw': kw, 'body': body,
+                                    **({'world': impl['world']} if impl.get('world') else {})},
+                              'x': {'src': src, 'twin': twin, 'access': list(acc), 'kind': kind, 'flavour': flav, 'pos': [], 'kwv': kw, 'body': body,
+                                    'implicit': implicit, 'needle': None, 'ctxmode': 'full', 'scenario': 'receiver:' + variant, '_impl': impl}})
         finally:
             P.close()
     return cases
@@ -1068,7 +1235,13 @@ def model_class(m):
 
 def correspondence(case, impl, model):
     """R for every call-layer property: outcome class, body-ran bit and forwarded caller objects agree"""
+    if case['c'].get('unprintable') and model.get('ir') is not None:
+        # values that cannot be formatted: the hand-written model has no notion of building a message; the interpretation of the translated
+        # code (which executes the statements that build the messages) is the model here (theorem ir_runCall_refines covers the rest)
+        model = dict(model, caller=model['ir']['caller'], ran=model['ir']['ran'], fwdPos=model['ir']['fwdPos'], fwdKw=model['ir']['fwdKw'])
     ic, mc = norm_out(impl['out']), norm_out(model_class(model))
+    if mc == 'ESC:format':
+        mc = ic if ic.startswith('ESC:') else mc          # whichever exception `__str__` / `__repr__` / `__format__` of the value raises
     implicit = case['x']['implicit']
     npos = len(case['x']['pos'])
     kwn = [k for k, _ in case['x']['kwv']]
@@ -1076,11 +1249,41 @@ def correspondence(case, impl, model):
     mf = [i for i in mf if i in impl['meaningful']]
     ok = ic == mc and bool(impl['ran']) == model['ran'] and (not impl['ran'] or impl['got'] == mf)
     why = '' if ok else f"implementation ({impl['out']}, ran={impl['ran']}, got={impl['got']}) vs model ({model['caller']}, ran={model['ran']}, fwd={mf})"
+    # the translated code (Gen/CallLayerIR.lean, interpreted by Model/CallLayerIR.lean with the path recorded) answers what the hand-written
+    # model answers (theorem ir_runCall_refines is about the interpretation without the path) …
+    ir = model.get('ir')
+    if ok and ir is not None and (ir['caller'], ir['ran'], ir['fwdPos'], ir['fwdKw']) != (model['caller'], model['ran'], model['fwdPos'], model['fwdKw']):
+        ok, why = False, f"interpretation of the translated call layer ({ir}) vs hand-written model ({model['caller']}, ran={model['ran']}, fwd={model['fwdPos']}/{model['fwdKw']})"
+    # … and takes the branches that CPython takes on this call (observed lines mapped to statement ids)
+    if ok and impl.get('trace') is not None and 'interpTrace' in model and not case['x'].get('zoo_call'):
+        # (a stored case without `world`: whether the receiver carries the TypeVar method is not known to the model - type_vars is not compared)
+        known = 'world' in case['c'] or not (impl.get('world') or {}).get('tvm')
+        ok, why = T.compare(impl['trace'], model['interpTrace'], skip=() if known else (2, 3))      # type_vars, and clazz which it may call
     return ok, why
 
 
 def twin_accepts(impl):
     return impl['twin']['out'] in ('RET', 'BODY_EXC', 'RETGEN')
+
+
+# findings of the call layer that several properties see (region of the model -> finding id); a judge attributes a failure to one of them only when
+# the correspondence holds (implementation == model in that region)
+SHARED_FINDINGS = [('unprintableFormat', 'unprintableValueEscapes'), ('receiverByKeyword', 'receiverByKeywordIndexError'),
+                   ('receiverNotNamedSelf', 'receiverNotNamedSelf')]
+
+
+def same_outcome(case, a, b):
+    """amplified run: two executions of one case agree (the recorded path and what was read off the live receiver for it are diagnostics that
+    only sampled executions carry)"""
+    drop = ('trace', 'world', 'wall_s', 'stall_s')
+    if isinstance(a, dict) and isinstance(b, dict):
+        a = {k: v for k, v in a.items() if k not in drop}
+        b = {k: v for k, v in b.items() if k not in drop}
+    return a == b
+
+
+def shared_finding(model):
+    return region_finding(model, SHARED_FINDINGS)
 
 
 def region_finding(model, table):
